@@ -58,6 +58,8 @@ def main():
             print("\n".join(pretty.program(ops)))
             continue
         f = [f for f in r["findings"] if (f["prop"], f["clause"]) == key][0]
+        if pname in ("examples", "ns", "gen", "pdk"):
+            print(f["detail"]); print(json.dumps(scn["ops"])[:1500]); continue
         small, st = driver.minimise_violation(pname, scn, f, 15)
         print(f["detail"]); print(st, small.get("sched"))
         print("\n".join(pretty.program(small["ops"])))
